@@ -3,7 +3,7 @@ import itertools
 import numpy as np
 from fractions import Fraction as Fr
 
-from ..common import ints, intss, quiet
+from ..common import ints, intss, rats, ratss, F, quiet
 from .c02 import make_system, gen_iRvec, gstr, cplx
 
 PID = "C33"
@@ -20,17 +20,21 @@ CLAIM = dict(
          "a phase array built from the block's OWN R list multiplies every entry by the phase of its own R (spin-up, "
          "spin-down and SOC blocks separately), the interlaced assembly puts the blocks where direct evaluation puts them; a "
          "proved counterexample shows that the pre-fix code (spin-down block with the spin-up phase array) gives a different "
-         "matrix when the R lists differ (finding F5, repaired).  Model tied to the code by exact comparison of the phase "
+         "matrix when the R lists differ (finding F5, repaired); phonon_freq_from_square = sign(E) g(|E|) is odd and "
+         "monotone and is applied entrywise after diagonalising the corner matrix, so corner frequencies are the frequencies at "
+         "the corner k-points; k.p corners: evaluating at fold((p+dK) mod 1 + v) is the direct evaluation fold(p+dK+v) because "
+         "the folding of SystemKP is 1-periodic.  Model tied to the code by exact comparison of the phase "
          "arrays and of every recorded corner Hamiltonian on Gaussian-integer data.",
-    note="Trusted: Lean kernel + Mathlib; harness; FFT library (inverse-DFT contract); numpy.linalg.eigvalsh; "
-         "phonon_freq_from_square, band selection (Emin/Emax) and the k.p branch are checked on the real code only.",
+    note="Trusted: Lean kernel + Mathlib; harness; FFT library (inverse-DFT contract); numpy.linalg.eigvalsh (abstract "
+         "spectrum routine in the theorems); band selection (Emin/Emax) is checked on the real code only.",
 )
 TRUSTED = [
     "modelled: expdK_corners_parallel / expdK_corners_tetra, the per-corner phase product, Ham_R * phase, R_to_k (fft branch via "
     "the C02 model), Data_K_soc block assembly with per-block R lists (and the pre-fix variant as documentation)",
     "hypothesis IDFTContract (see C02)",
-    "not modelled (oracle only): eigvalsh, select_bands / Emin / Emax, phonon_freq_from_square, Data_K_k (k.p) corners, "
-    "K-point refinement (divide), GridTetra construction",
+    "modelled: phonon_freq_from_square (exact on signed perfect squares), Data_K_k corner evaluation incl. SystemKP.k_to_1BZ "
+    "folding and the reduction of the FFT k-points modulo 1 (exact on a one-band quadratic k.p model)",
+    "not modelled (oracle only): eigvalsh, select_bands / Emin / Emax, K-point refinement (divide), GridTetra construction",
 ]
 RULE = ("systems: System_R (1-4 WF), phonon-flagged System_R (indefinite 'dynamical matrix'), SystemSOC with one spin channel, "
         "two channels with equal and with different R lists, with and without an SOC term, SystemKP; grids NKdiv, NKFFT in "
@@ -205,7 +209,7 @@ def pick_kpoint(rng, system, kind_grid):
 
 def corr(ctx):
     from .c01 import run_batched
-    run_batched(ctx, [corr_expdk, corr_corner])
+    run_batched(ctx, [corr_expdk, corr_corner, corr_phonon, corr_kp])
 
 
 def exact_grid(rng, system):
@@ -334,6 +338,96 @@ def corr_corner(ctx):
                          dict(line=l[:300], case=c))
     if lines:
         ctx.sample(dict(protocol_line=lines[0][:300], model=out[0][:200]))
+
+
+
+def corr_phonon(ctx):
+    """Data_K.phonon_freq_from_square on signed perfect squares of dyadic numbers (exact in doubles) vs the model"""
+    from ..wbsys import wb
+    from wannierberri.data_K.data_K_R import Data_K_R
+    rng = ctx.rng
+    lines, expect, cases = [], [], []
+    with quiet():
+        s = make_system(rng, nw=1, keys=("Ham",), nR=1, maxR=1)
+        s.is_phonon = True
+        grid = wb.Grid(s, NKdiv=1, NKFFT=1, use_symmetry=False)
+        Kp = grid.get_K_list(use_symmetry=False)[0]
+        d = Data_K_R(s, dK=Kp.Kp_fullBZ, grid=grid, Kpoint=Kp, fftlib="numpy")
+        s2 = make_system(rng, nw=1, keys=("Ham",), nR=1, maxR=1)
+        d2 = Data_K_R(s2, dK=Kp.Kp_fullBZ, grid=grid, Kpoint=Kp, fftlib="numpy")
+    for it in range(ctx.n(10, 60)):
+        roots = [Fr(rng.randint(0, 40), rng.choice([1, 2, 4, 8])) for _ in range(rng.randint(1, 8))]
+        E = [r * r * rng.choice([1, -1]) for r in roots]
+        Ef = np.array([float(x) for x in E]).reshape(1, -1)
+        case = dict(E=Ef)
+        with ctx.attempt("phonon_freq_from_square", case):
+            got = np.array(d.phonon_freq_from_square(Ef.copy())).reshape(-1)
+            same = np.array(d2.phonon_freq_from_square(Ef.copy())).reshape(-1)
+            if not np.array_equal(same, Ef.reshape(-1)):
+                ctx.fail("phonon_freq_from_square changes the energies of a NON-phonon system", case)
+            lines.append(f"phonon {rats(E)}")
+            expect.append(got)
+            cases.append(case)
+    out = yield lines
+    for l, o, e, c in zip(lines, out, expect, cases):
+        ctx.case(signature=l, nontrivial=True)
+        m = np.array([float(Fr(t)) for t in o.split(",")])
+        if m.shape != e.shape or np.abs(m - e).max() > 0:
+            ctx.mismatch(f"phonon_freq_from_square: model={m.tolist()} code={e.tolist()}", dict(line=l, case=c))
+
+
+def corr_kp(ctx):
+    """Data_K_k corner energies of a one-band k.p model with a quadratic polynomial in reduced coordinates vs the model
+    (folding into the box, reduction of the FFT k-points modulo 1, corner / vertex vectors)"""
+    from ..wbsys import wb
+    from wannierberri.system.system_kp import SystemKP
+    from wannierberri.data_K.data_K_k import Data_K_k
+    from wannierberri.grid.Kpoint_tetra import KpointBZtetra
+    rng = ctx.rng
+    lines, expect, cases = [], [], []
+    corners = list(itertools.product((0, 1), repeat=3))
+    for it in range(ctx.n(10, 80)):
+        coef = [Fr(rng.randint(-16, 16), 8) for _ in range(7)]
+        cf = [float(x) for x in coef]
+
+        def Ham(k, cf=cf):
+            return np.array([[cf[0] + cf[1] * k[0] + cf[2] * k[1] + cf[3] * k[2] + cf[4] * k[0] * k[0]
+                              + cf[5] * k[1] * k[1] + cf[6] * k[2] * k[2]]], dtype=complex)
+        geom = rng.choice(["paral", "tetra"])
+        with quiet():
+            s = SystemKP(Ham=Ham, kmax=1.0, k_vector_cartesian=False)
+            # parallelepiped corners fall on the folding boundary 1/2 only when NKdiv*NKFFT is odd on that axis
+            pairs = [rng.choice([(1, 2), (2, 1), (2, 3), (3, 2), (4, 1), (1, 4), (2, 2), (3, 4), (5, 2), (3, 3)]) for _ in range(3)]
+            div = [p[0] for p in pairs]
+            fft = [p[1] for p in pairs]
+            grid = wb.Grid(s, NKdiv=div, NKFFT=fft, use_symmetry=False)
+            Kp = rng.choice(grid.get_K_list(use_symmetry=False))
+            if geom == "tetra":
+                verts = np.array([[rng.randint(-8, 8) / 16 for _ in range(3)] for _ in range(4)])
+                Kp = KpointBZtetra(vertices=verts, K=np.array([rng.randint(0, 16) / 16 for _ in range(3)]), NKFFT=grid.FFT,
+                                   basis=np.eye(3))
+            d = Data_K_k(s, dK=Kp.Kp_fullBZ, grid=grid, Kpoint=Kp)
+            E = d.E_K_corners_parallel() if geom == "paral" else d.E_K_corners_tetra()
+        vs = [(np.array(c) - 0.5) * Kp.dK_fullBZ for c in corners] if geom == "paral" else list(Kp.vertices_fullBZ)
+        pts = np.array(grid.points_FFT)
+        dK = np.array(Kp.Kp_fullBZ)
+        allk = np.array([(p + dK) % 1 + v for p in pts for v in vs])
+        case = dict(coefficients=cf, NKdiv=div, NKFFT=fft, K=Kp.K, geometry=geom)
+        if np.abs(((allk + 0.5) % 1)).min() < 1e-7 or np.abs(((allk + 0.5) % 1) - 1).min() < 1e-7:
+            ctx.count("corr.kp.skipped_corner_on_box_boundary")
+            continue
+        lines.append(f"kpcorner {rats(coef)} {ratss([[F(x) for x in p] for p in pts])} {rats(F(x) for x in dK)} "
+                     f"{ratss([[F(x) for x in v] for v in vs])}")
+        expect.append(np.array(E).reshape(len(pts), -1))
+        cases.append(case)
+        ctx.count(f"corr.kp.geometry={geom}")
+    out = yield lines
+    for l, o, e, c in zip(lines, out, expect, cases):
+        ctx.case(signature=l, nontrivial=True)
+        m = np.array([[float(Fr(t)) for t in blk.split(",")] for blk in o.split("#")])
+        if m.shape != e.shape or np.abs(m - e).max() > 1e-11 * (1 + np.abs(m).max()):
+            ctx.mismatch(f"k.p corner energies differ from the model by {np.abs(m - e).max() if m.shape == e.shape else 'shape'}",
+                         dict(line=l[:300], case=c))
 
 
 # ------------------------------------------------------------------------------------------------
